@@ -20,6 +20,7 @@ enum Op {
     WithScaleRound,
     WithScale,
     Round,
+    RefToOwnedWithScale,
 }
 impl Op {
     fn name(self) -> &'static str {
@@ -27,10 +28,11 @@ impl Op {
             Op::WithScaleRound => "with_scale_round",
             Op::WithScale => "with_scale",
             Op::Round => "round",
+            Op::RefToOwnedWithScale => "to_ref().to_owned_with_scale",
         }
     }
     fn from_name(s: &str) -> Op {
-        [Op::WithScaleRound, Op::WithScale, Op::Round].into_iter().find(|o| o.name() == s).expect("unknown op")
+        [Op::WithScaleRound, Op::WithScale, Op::Round, Op::RefToOwnedWithScale].into_iter().find(|o| o.name() == s).expect("unknown op")
     }
 }
 
@@ -44,12 +46,14 @@ fn check(op: Op, xb: &BigDecimal, x: &Dec, t: i64, m: Mode) -> Option<Violation>
         Op::WithScaleRound => "BigDecimal::with_scale_round",
         Op::WithScale => "BigDecimal::with_scale",
         Op::Round => "BigDecimal::round",
+        Op::RefToOwnedWithScale => "BigDecimalRef::to_owned_with_scale",
     };
     let want = round_to_scale(&x.n, x.s, t as i128, m);
     let got = guard(|| match op {
         Op::WithScaleRound => xb.with_scale_round(t, rm(m)),
         Op::WithScale => xb.with_scale(t),
         Op::Round => xb.round(t),
+        Op::RefToOwnedWithScale => xb.to_ref().to_owned_with_scale(t),
     });
     let mk = |class: &str, obs: String| {
         Violation::new(site, class, case_json(op, x, t, m), format!("{}e{}", want, -t), obs)
@@ -145,8 +149,11 @@ fn sweep_decimal(run: &Run, x: &Dec, default_mode: Mode, t: &mut Tally) {
                 run.report(v);
             }
         }
-        t.transitions += 2;
+        t.transitions += 3;
         if let Some(v) = check(Op::WithScale, &xb, x, target, Mode::Down) {
+            run.report(v);
+        }
+        if let Some(v) = check(Op::RefToOwnedWithScale, &xb, x, target, Mode::Down) {
             run.report(v);
         }
         if let Some(v) = check(Op::Round, &xb, x, target, default_mode) {
@@ -165,7 +172,7 @@ fn main() {
     let default_mode = Mode::from_name(DEFAULT_MODE_NAME).expect("unknown configured default rounding mode");
     // the subject must report the configured default too (C20 checks this across configurations)
     assert_eq!(mode_of(RoundingMode::default()), default_mode, "harness and subject disagree on the configured default mode");
-    let nmax: i64 = tier.pick(9_999, 99_999);
+    let nmax: i64 = tier.pick(99_999, 299_999);
     run.bound("unscaled_max", nmax);
     run.bound("scales", "-3..=8");
     run.bound("targets", "from 4 left of the leading digit to 4 right of the last digit");
@@ -295,8 +302,11 @@ fn main() {
                     run.report(v);
                 }
             }
-            t.transitions += 2;
+            t.transitions += 3;
             if let Some(v) = check(Op::WithScale, &xb, x, target, Mode::Down) {
+                run.report(v);
+            }
+            if let Some(v) = check(Op::RefToOwnedWithScale, &xb, x, target, Mode::Down) {
                 run.report(v);
             }
             if let Some(v) = check(Op::Round, &xb, x, target, default_mode) {
